@@ -669,6 +669,9 @@ class BIPForeign(BIPSAP, Client, Server, OneShotTask, DebugContents):
             self.bbmdAddress = Address(addr)
         self.bbmdTimeToLive = ttl
 
+        # a new registration is in process, no longer unbinding
+        self.registrationStatus = -1
+
         # install this task to do registration renewal according to the TTL
         # and stop tracking any active registration timeouts
         self.install_task(when=0)
